@@ -5,6 +5,7 @@ from __future__ import annotations
 import itertools
 
 from .. import automata as A
+from .. import envs
 from .. import blocks, e1, impl, linelang, refmodel
 from ..chartgen import RAW, mk
 from ..linelang import BL
@@ -45,6 +46,7 @@ PACK = 10**4
 
 
 def setup():
+    envs.enable(64)  # E1-M: every 64th case again under every environment of mc/envs.py
     global probe
     impl.load()
     probe = e1.compile_probe(PROBE_SRC)
